@@ -3467,7 +3467,7 @@ func (d *msgpackDecDriverBytes) DecodeNaked() {
 	}
 	if n.v == valueTypeUint && d.h.SignedInteger {
 		n.v = valueTypeInt
-		n.i = int64(n.u)
+		n.i = int64(chkOvf.SignedIntV(n.u))
 	}
 }
 
@@ -7518,7 +7518,7 @@ func (d *msgpackDecDriverIO) DecodeNaked() {
 	}
 	if n.v == valueTypeUint && d.h.SignedInteger {
 		n.v = valueTypeInt
-		n.i = int64(n.u)
+		n.i = int64(chkOvf.SignedIntV(n.u))
 	}
 }
 
